@@ -14,8 +14,8 @@ Proof. intros A e l H. induction l as [|x r IH]; cbn; [reflexivity|]. rewrite H,
 
 Lemma server_eqb_refl : forall s, server_eqb s s = true.
 Proof.
-  intros s. unfold server_eqb. rewrite Nat.eqb_refl, Z.eqb_refl. cbn.
-  apply list_eqb_refl. apply Z.eqb_refl.
+  intros s. unfold server_eqb. rewrite Nat.eqb_refl, Z.eqb_refl, Bool.eqb_reflx. cbn.
+  rewrite andb_true_r. apply list_eqb_refl. apply Z.eqb_refl.
 Qed.
 
 Lemma roster_eqb_refl : forall r, roster_eqb r r = true.
@@ -64,6 +64,7 @@ Lemma rebuilt_passes : forall l m n,
 Proof.
   intros l m. induction m as [nid tid sid rid ch IH] using tm_ind2. intros n H.
   rewrite rebuild_eq in H. destruct (search_from l sid 0) as [[i e]|] eqn:Es; [|discriminate].
+  destruct (s_nokey e) eqn:Ek; [discriminate|].
   destruct (rebuild_all Z l ch) as [ns|] eqn:Er; [|discriminate]. inversion H; subst n. clear H.
   pose proof (search_from_some Z _ _ _ _ _ Es) as (_ & Hnth & Hid & _). rewrite Nat.sub_0_r in Hnth.
   apply rebuild_all_inv in Er.
@@ -82,7 +83,7 @@ Proof.
     (Node nid e i (Some (agg_of Z.add (Node nid e i None ns))) (map (with_aggs Z.add) ns)).
   split.
   - cbn [node_matches]. rewrite Nat.eqb_refl, Hid, Nat.eqb_refl. cbn. exact Hms.
-  - cbn [node_wf]. rewrite Hnth, server_eqb_refl, Hws.
+  - cbn [node_wf]. rewrite Hnth, server_eqb_refl, Hws, Ek. cbn [negb andb].
     rewrite agg_is_key_sum.
     replace (key_sum (Node nid e i (Some (key_sum (Node nid e i None ns))) (map (with_aggs Z.add) ns)))
       with (key_sum (Node nid e i None ns)).
@@ -136,10 +137,11 @@ Qed.
 Theorem roundtrip_passes_checker : forall f06 n2 (t : ztree) ro,
   t_ro t = Some ro -> NoDup (map s_id (r_list ro)) ->
   (forall x, In x (flat (t_root t)) -> nth_error (r_list ro) (n_ridx x) = Some (n_srv x)) ->
+  (forall x, In x (flat (t_root t)) -> s_nokey (n_srv x) = false) ->
   aggs_computed Z Z.add (t_root t) ->
   forall t', make_tree Z.add f06 n2 (to_marshal t) (Some ro) = Ok t' -> t' = t.
 Proof.
-  intros f06 n2 t ro Hro Hnd Hall Hagg t' H.
-  destruct (roundtrip Z Z.add f06 n2 t ro Hro Hnd Hall) as (_ & E & _). rewrite (E Hagg) in H.
+  intros f06 n2 t ro Hro Hnd Hall Hkey Hagg t' H.
+  destruct (roundtrip Z Z.add f06 n2 t ro Hro Hnd Hall Hkey) as (_ & E & _). rewrite (E Hagg) in H.
   inversion H; reflexivity.
 Qed.
